@@ -185,11 +185,17 @@ def r8_guards(body, log, dropped_fields=()):
     return body
 
 
-def r12_opaque(body, begin, end, replace, log, name='', include_end=True):
+def r12_opaque(body, begin, end, replace, log, name='', include_end=True, nth=None):
     """Replace the text from anchor `begin` through anchor `end` (inclusive) by `replace`.
-    If `end` == '}' semantics are: the block opened by the first `{` after begin."""
+    If `end` == '}' semantics are: the block opened by the first `{` after begin.
+    `nth` (1-based) selects one of several occurrences of `begin`; without it the anchor must be unique."""
     i = body.find(begin)
-    if i < 0 or body.find(begin, i + 1) >= 0:
+    if nth:
+        for _ in range(int(nth) - 1):
+            i = body.find(begin, i + 1) if i >= 0 else -1
+        if i < 0:
+            raise ExtractError(f"R12 anchor lost (begin, occurrence {nth}): {begin!r}")
+    elif i < 0 or body.find(begin, i + 1) >= 0:
         raise ExtractError(f"R12 anchor lost or ambiguous (begin): {begin!r}")
     if end == '@block':
         mb = mask(body)
@@ -343,6 +349,39 @@ def r17_get_mut(body, log):
         n += 1
     if n:
         log.append(f"R17 `if let Some(x) = M.get_mut(k) {{..}}` -> get + local copy + insert write-back ({n}x)")
+    return body
+
+
+def r17q_get_mut_or_else(body, log):
+    """R17q: `let X = M.get_mut(K).ok_or_else(|| E)?;` followed by field writes `X.f = e;` ->
+    `let mut X = match M.get(K) { Some(g) => *g, None => { return Err(E); } };` and every statement
+    `X.f = e;` is followed by the write-back `M.insert(K, X);`.  Same meaning as the mutable borrow for
+    value types that are plain data (the unit's projection is Copy) while nothing else touches M[K]
+    between the writes: each write reaches the map immediately."""
+    n = 0
+    while True:
+        mb = mask(body)
+        m = re.search(r'let (\w+) = ([\w.]+)\.get_mut\(([^()]*)\)\.ok_or_else\(\|\| ', mb)
+        if not m:
+            break
+        name, mp, key = m.group(1), m.group(2), body[m.start(3):m.end(3)].strip()
+        # closure body runs up to the parenthesis closing ok_or_else(
+        o = mb.rfind('(', 0, m.end())
+        c = match_close(mb, o)
+        clos = body[m.end():c].strip()
+        if clos.startswith('{'):
+            clos = clos[1:-1].strip()
+        if mb[c + 1:c + 3] != '?;':
+            raise ExtractError("R17q: `.ok_or_else(..)` not followed by `?;`")
+        keyc = key[1:].strip() + '.clone()' if key.startswith('&') else '(*' + key + ').clone()'
+        wb = f"{mp}.insert({keyc}, {name});"
+        head = (f"let mut {name} = match {mp}.get({key}) {{ Some(__g_{name}) => *__g_{name}, "
+                f"None => {{ return Err({clos}); }} }};")
+        rest = body[c + 3:]
+        rest, k = re.subn(r'(?m)^([ \t]*)(' + re.escape(name) + r'\.\w+ = [^;]*;)', lambda r: f"{r.group(1)}{r.group(2)}\n{r.group(1)}{wb}", rest)
+        body = body[:m.start()] + head + rest
+        n += 1
+        log.append(f"R17q `let {name} = {mp}.get_mut({key}).ok_or_else(..)?;` -> get + local copy; {k} field write(s) followed by insert write-back")
     return body
 
 
@@ -616,6 +655,8 @@ def extract_fn(repo, fnspec):
         body = r17_get_mut(body, log)
     if 'R13g' in rules:
         body = r13g_get_or_insert_with(body, log)
+    if 'R17q' in rules:
+        body = r17q_get_mut_or_else(body, log)
     if 'R7f' in rules:
         body = r7f_messages(body, log)
     if 'R3i' in rules:
@@ -626,7 +667,7 @@ def extract_fn(repo, fnspec):
         k = d['kind']
         if k == 'opaque':
             body = r12_opaque(body, d['begin'], d['end'], d['replace'], log, d.get('name', ''),
-                              include_end=d.get('include_end', 'true') != 'false')
+                              include_end=d.get('include_end', 'true') != 'false', nth=d.get('nth'))
         elif k == 'subst':
             body = subst(body, d['from'], d['to'], log, d.get('rule', 'subst'), d.get('count', 1), regex=bool(d.get('regex')))
         elif k == 'insert':
